@@ -25,7 +25,7 @@ def cases(ctx):
         yield "run", {"seed": ctx.subseed("r", i), "algo": ["nsga2", "epsmoea", "sweep"][i % 3], "evaluator": ["worst", "gradient"][(i // 3) % 2]}
 
 
-def make_problem(r, n, m):
+def make_problem(r, n, m, script=None):
     bxs = gen.boxes(r, n, r.choice(["unit", "mixed", "neg", "asym"]))
     tols = [r.choice([0.1, 0.01, 1e-3, 0.5]) * (ub - lb) for lb, ub in bxs]
     prm = [{"name": "x%d" % i, "bounds": list(b), "tol": t} for i, (b, t) in enumerate(zip(bxs, tols))]
@@ -43,7 +43,7 @@ def make_problem(r, n, m):
                 out.append(sum(abs(w * v) for w, v in zip(ws[j], x)))
         return out
     crit = [r.choice(["minimize", "maximize"]) for _ in range(m)]
-    p = hooks.make_problem(n=n, m=m, params=prm, fn=fn, criteria=crit)
+    p = hooks.make_problem(n=n, m=m, params=prm, fn=fn, criteria=crit, script=script)
     return p, bxs, tols, fn
 
 
@@ -149,8 +149,21 @@ def run_case(ctx, name, params):
         worst = name == "worst_history"
         n = r.randint(1, 4)
         m = r.randint(1, 3)
-        p, bxs, tols, fn = make_problem(r, n, m)
+        # transient failures of the evaluation of a batch design (never of a neighbour): Job.evaluate then replaces the vector, and
+        # everything derived for the design must belong to the vector that is finally stored
+        parents = set()
+        failed_once = {}
+        inject = r.random() < 0.4
+        fr = ctx.rng("fail", params["seed"])
+
+        def script(call_no, vec, individual):
+            if inject and individual.id in parents and failed_once.get(individual.id, 0) < 2 and fr.random() < 0.3:
+                failed_once[individual.id] = failed_once.get(individual.id, 0) + 1
+                return fr.choice([RuntimeError, TimeoutError])("injected transient failure")
+            return None
+        p, bxs, tols, fn = make_problem(r, n, m, script=script)
         alg = Alg(p, evaluator_type=EvaluatorType.WORST_CASE if worst else EvaluatorType.GRADIENT)
+        vrng.install(vrng.SeededRandom(params["seed"]))
         nb = r.randint(1, 6)
         designs = []
         total_expected = 0
@@ -160,13 +173,17 @@ def run_case(ctx, name, params):
             for _ in range(size):
                 ind = Individual([lb + r.random() * (ub - lb) for lb, ub in bxs])
                 batch.append(ind)
+                parents.add(ind.id)
                 designs.append({"ind": ind, "vector": [float(v) for v in ind.vector], "batch": b})
             try:
                 alg.evaluate(batch)
             except Exception as e:
                 ctx.violation(("worst" if worst else "gradient") + "/exception", "evaluate raised %r in batch %d" % (e, b), {"n": n, "m": m})
                 return
-            total_expected += size * ((1 + 2 * n) if worst else (1 + n))
+            for dsg in designs[-size:]:
+                dsg["vector"] = [float(v) for v in dsg["ind"].vector]       # the vector that was finally stored (after retries)
+            total_expected += size * ((1 + 2 * n) if worst else (1 + n)) + sum(failed_once.get(i.id, 0) for i in batch)
+            ctx.count("injected_parent_failures", sum(failed_once.get(i.id, 0) for i in batch))
             ctx.count("batches")
             for dsg in designs:
                 ok = judge_worst(ctx, p, dsg, tols, m, fn, "history", b) if worst else judge_gradient(ctx, p, dsg, m, fn, "history", b)
